@@ -234,7 +234,7 @@ def mutate_pattern(rng, p):
 
 # every construct individually (each class, escape and hexadecimal form, every quantifier form)
 def construct_corpus():
-    out = ["a", ".", "$", "^a", "a$", "a|b", "ab", "(a)", "(a|b)c", "a|", "()", "[]", "[a]", "[^a]", "[a-c]", "[^a-c]", "[c-a]", "[-]", "[a-]", "[--0]",
+    out = ["a", ".", "$", "^a", "a$", "^if", "^ab", "^a^b", "^-", "^abc", "^_x", "if", "^^a", "a^", "a|b", "ab", "(a)", "(a|b)c", "a|", "()", "[]", "[a]", "[^a]", "[a-c]", "[^a-c]", "[c-a]", "[-]", "[a-]", "[--0]",
            "a?", "a*", "a+", "a{0}", "a{1}", "a{2}", "a{0,}", "a{1,}", "a{2,}", "a{0,0}", "a{0,1}", "a{1,2}", "a{2,4}", "a{3,1}", "a??", "a*?", "a+?", "a{1,2}?",
            "a**", "a+*", "a{1}{2}", "(a*)*", "(a?)+", "(a|b)*abb", "(ab|a)(bc|c)", "a(b|)c", "((a))", "(a", "a)", "a||b", "|a", "*a", "+", "?",
            "\\", "\\a", "\\n", "\\t", "\\/", "\\x", "\\x4", "\\x41", "\\x4g", "\\x414", "\\x4142", "\\x41424", "\\x41424344", "\\x414243445", "\\xFFFFFFFF", "\\x80000000", "\\x0000", "\\x00",
@@ -279,7 +279,8 @@ class Sweep:
         self.model_fixed = ctx.run_model_par("renfafixed", lines) if "nfa" in want else None
         self.spec = ctx.run_model_par("respec", lines) if "spec" in want else None
         self.impl_ast = ctx.run_impl_par("reast", lines, timeout=900, isolate=True) if "ast" in want else None
-        self.model_ast = ctx.run_model_par("reast", lines) if "ast" in want else None
+        # the model of the followpos route is list-based: a few patterns with several wide sets under nested repetition take it minutes
+        self.model_ast = ctx.run_model_budget("reast", lines) if "ast" in want else None
 
 
 def lang_diff(a_line, b_line, skip=(0,)):
